@@ -1073,6 +1073,28 @@ func syncFacts(root *pkgInfo, fx *facts) {
 			miss(k)
 		}
 	}
+	// how the height of the tip hash is obtained: `lastHeight := <expr>` (must be a lookup OF THE
+	// HASH read by LastHash; the repository's current height is a different read)
+	ast.Inspect(fd.Body, func(n ast.Node) bool {
+		as, ok := n.(*ast.AssignStmt)
+		if !ok || as.Tok != token.DEFINE || len(as.Lhs) != 1 || len(as.Rhs) != 1 {
+			return true
+		}
+		if id, ok := as.Lhs[0].(*ast.Ident); ok {
+			switch id.Name {
+			case "lastHeight":
+				fx.Strs["syncLastHeightExpr"] = src(root, as.Rhs[0])
+			case "lashHash":
+				fx.Strs["syncLastHashExpr"] = src(root, as.Rhs[0])
+			}
+		}
+		return true
+	})
+	for _, k := range []string{"syncLastHeightExpr", "syncLastHashExpr"} {
+		if _, ok := fx.Strs[k]; !ok {
+			miss(k)
+		}
+	}
 	// the walk-back loop: first `for {` whose body calls PreviousHash
 	var loop *ast.ForStmt
 	ast.Inspect(fd.Body, func(n ast.Node) bool {
